@@ -79,8 +79,10 @@ macro_rules! fold_order {
 fn same_bool(a: &bool, b: &bool) -> bool { a == b }
 fn same_usize(a: &Option<usize>, b: &Option<usize>) -> bool { a == b }
 
-fold_order!(fold_order_index_result, |t: &Type| t.index_result(), opt_equiv, [T_U_ARRS, T_U_INT_ARR_INT, T_U_FLOAT_ARRANY_ARRINT, T_U_ARR_MUT]);
-fold_order!(fold_order_element_type, |t: &Type| t.element_type(), opt_equiv, [T_U_ARRS, T_U_INT_ARR_INT, T_U_FLOAT_ARRANY_ARRINT, T_U_ARR_MUT]);
+fold_order!(fold_order_index_result_a, |t: &Type| t.index_result(), opt_equiv, [T_U_ARRS, T_U_INT_ARR_INT]);
+fold_order!(fold_order_index_result_b, |t: &Type| t.index_result(), opt_equiv, [T_U_FLOAT_ARRANY_ARRINT, T_U_ARR_MUT]);
+fold_order!(fold_order_element_type_a, |t: &Type| t.element_type(), opt_equiv, [T_U_ARRS, T_U_INT_ARR_INT]);
+fold_order!(fold_order_element_type_b, |t: &Type| t.element_type(), opt_equiv, [T_U_FLOAT_ARRANY_ARRINT, T_U_ARR_MUT]);
 fold_order!(fold_order_mut_element_type, |t: &Type| t.mut_element_type(), opt_equiv, [T_U_MUTS, T_U_ARR_MUT, T_U_MUT_INT_MUT_U, T_U_INT_FLOAT]);
 fold_order!(fold_order_return_type, |t: &Type| t.return_type(), opt_equiv, [T_U_FUNS, T_U_INT_FLOAT]);
 fold_order!(fold_order_params, |t: &Type| t.params(), slice_equiv, [T_U_FUNS, T_U_INT_FLOAT]);
@@ -91,55 +93,60 @@ fold_order!(fold_order_tuple_element_at, |t: &Type| t.tuple_element_at(1), opt_e
 fold_order!(fold_order_flatten_tuple, |t: &Type| t.clone().flatten_tuple(), slice_equiv, [T_U_TUPS, T_U_INT_FLOAT]);
 fold_order!(fold_order_field_type, |t: &Type| t.field_type("a"), opt_equiv, [T_U_STRUCTS, T_ST_AB]);
 fold_order!(fold_order_has_field, |t: &Type| t.has_field("b"), same_bool, [T_U_STRUCTS, T_ST_AB]);
-fold_order!(fold_order_predicates, |t: &Type| (t.is_function() as u8) | ((t.is_tuple() as u8) << 1) | ((t.is_mut() as u8) << 2) | ((t.can_be_indexed() as u8) << 3) | ((t.is_struct() as u8) << 4) | ((t.is_iterator() as u8) << 5),
-    |a: &u8, b: &u8| a == b, [T_U_FUNS, T_U_TUPS, T_U_MUTS, T_U_ARRS, T_U_STRUCTS, T_U_ARR_MUT, T_U_INT_ARR_INT]);
+fn predicates(t: &Type) -> u8 {
+    (t.is_function() as u8) | ((t.is_tuple() as u8) << 1) | ((t.is_mut() as u8) << 2) | ((t.can_be_indexed() as u8) << 3) | ((t.is_struct() as u8) << 4) | ((t.is_iterator() as u8) << 5)
+}
+fn same_u8(a: &u8, b: &u8) -> bool { a == b }
+fold_order!(fold_order_predicates_a, predicates, same_u8, [T_U_FUNS, T_U_TUPS]);
+fold_order!(fold_order_predicates_b, predicates, same_u8, [T_U_MUTS, T_U_ARRS]);
+fold_order!(fold_order_predicates_c, predicates, same_u8, [T_U_STRUCTS, T_U_ARR_MUT, T_U_INT_ARR_INT]);
 
-/// a union with three tuple lengths would need a 3-ary tuple; min_tuple_len on (int,float)|(int,int)|(int)
+/// a union of tuples with three different lengths: the minimum does not depend on the order
+fn min_len_three(p: u8) {
+    set_order(p);
+    let t = Type::Tuple(vec![Type::Int, Type::Int, Type::Int].into()) | real(T_TUP1_INT) | real(T_TUP_INT_INT);
+    assert!(t.min_tuple_len() == Some(1));
+    assert!(t.tuple_len().is_none());
+}
 #[kani::proof]
 #[kani::unwind(8)]
 #[kani::stub(alloc::fmt::format, crate::verif_common::stub_format)]
-pub fn fold_order_min_tuple_len_three() {
-    let mut p = 0u8;
-    let mut first: Option<Option<usize>> = None;
-    while p < 6 {
-        set_order(p);
-        let t = Type::Tuple(vec![Type::Int, Type::Int, Type::Int].into()) | real(T_TUP1_INT) | real(T_TUP_INT_INT);
-        let r = t.min_tuple_len();
-        assert!(r == Some(1));
-        match first { None => first = Some(r), Some(f) => assert!(f == r) }
-        p += 1;
-    }
-    set_order(255);
-    kani::cover!(true);
-}
+pub fn fold_order_min_tuple_len_three_a() { min_len_three(0); min_len_three(1); min_len_three(2); set_order(255); kani::cover!(true); }
+#[kani::proof]
+#[kani::unwind(8)]
+#[kani::stub(alloc::fmt::format, crate::verif_common::stub_format)]
+pub fn fold_order_min_tuple_len_three_b() { min_len_three(3); min_len_three(4); min_len_three(5); set_order(255); kani::cover!(true); }
 
-/// the relation itself and the lattice operations between two structurally equal unions iterated
+/// the relation itself and the lattice operations between two structurally equal types iterated
 /// in independent orders
-#[kani::proof]
-#[kani::unwind(8)]
-#[kani::stub(alloc::fmt::format, crate::verif_common::stub_format)]
-pub fn equal_types_compare_equal_across_orders() {
-    const TS: [Ty; 8] = [T_U_INT_FLOAT_STR, T_U_INT_ARR_INT, T_U_ARRS, T_U_STRUCTS, T_ST_AB, T_U_FUNS, T_U_MUTS, T_ARR_U_INT_FLOAT];
-    let mut k = 0;
-    while k < TS.len() {
-        let a = variant(TS[k], 0);
-        let mut i = 1u8;
-        while i < 5 {
-            let b = variant(TS[k], i);
-            assert!(a == b && b == a); // structurally equal types always compare equal
-            assert!(a.matches(&b) && b.matches(&a));
-            // and so do `mut` cells of them (invariance is decided by ==)
-            assert!(Type::Mut(Arc::new(a.clone())).matches(&Type::Mut(Arc::new(b.clone()))));
-            // concat / conjoin of equal types are that type again
-            assert!(equiv(&a.clone().concat(b.clone()), &a));
-            assert!(equiv(&a.conjoin(&b), &a));
-            i += 1;
-        }
-        k += 1;
+fn equal_across_orders(t: Ty) {
+    let a = variant(t, 0);
+    let mut i = 1u8;
+    while i < 5 {
+        let b = variant(t, i);
+        assert!(a == b && b == a); // structurally equal types always compare equal
+        assert!(a.matches(&b) && b.matches(&a));
+        // and so do `mut` cells of them (invariance is decided by ==)
+        assert!(Type::Mut(Arc::new(a.clone())).matches(&Type::Mut(Arc::new(b.clone()))));
+        i += 1;
     }
-    set_order(255);
-    kani::cover!(true);
+    // concat / conjoin of equal types are that type again
+    let b = variant(t, 3);
+    assert!(equiv(&a.clone().concat(b.clone()), &a));
+    assert!(equiv(&a.conjoin(&b), &a));
 }
+macro_rules! equal_harness {
+    ($name:ident, $($t:expr),*) => {
+        #[kani::proof]
+        #[kani::unwind(8)]
+        #[kani::stub(alloc::fmt::format, crate::verif_common::stub_format)]
+        pub fn $name() { $( equal_across_orders($t); )* set_order(255); kani::cover!(true); }
+    };
+}
+equal_harness!(equal_types_across_orders_a, T_U_INT_FLOAT_STR, T_U_INT_ARR_INT);
+equal_harness!(equal_types_across_orders_b, T_U_ARRS, T_ARR_U_INT_FLOAT);
+equal_harness!(equal_types_across_orders_c, T_U_STRUCTS, T_ST_AB);
+equal_harness!(equal_types_across_orders_d, T_U_FUNS, T_U_MUTS);
 
 /// Hash is consistent with Eq (the container model hides the hasher, so this is checked directly,
 /// with an order-sensitive reference hasher)
